@@ -441,3 +441,48 @@ pub fn resize_overlap_case() -> BoxedStrategy<Case> {
         })
         .boxed()
 }
+
+/// C06: a pool whose idle queue has been rotated (so that the ring buffer behind it has wrapped)
+/// is closed, possibly with a few objects still out, and used a little afterwards
+pub fn rotate_then_close_case() -> BoxedStrategy<Case> {
+    (2u8..=5, any::<bool>(), 0u8..=12, 0u8..=2, prop::option::weighted(0.4, 0u8..6), 0u8..4)
+        .prop_flat_map(|(max_size, lifo, rotations, keep_out, close_pause, via)| {
+            let tail = prop::collection::vec(
+                prop_oneof![
+                    3 => any::<u8>().prop_map(|h| Step::Return { h, pause: None }),
+                    2 => Just(Step::StartGet { zero_wait: false, pause: None }),
+                    1 => Just(Step::Status),
+                    2 => any::<u8>().prop_map(|p| Step::Resume { p, pause: None }),
+                ],
+                0..=4,
+            );
+            (Just((max_size, lifo, rotations, keep_out, close_pause, via)), tail)
+        })
+        .prop_map(|((max_size, lifo, rotations, keep_out, close_pause, via), tail)| {
+            let mut steps = vec![];
+            for _ in 0..max_size {
+                steps.push(Step::StartGet { zero_wait: false, pause: None });
+            }
+            for _ in 0..max_size {
+                steps.push(Step::Return { h: 0, pause: None });
+            }
+            for _ in 0..rotations {
+                steps.push(Step::StartGet { zero_wait: false, pause: None });
+                steps.push(Step::Return { h: 0, pause: None });
+            }
+            for _ in 0..keep_out.min(max_size - 1) {
+                steps.push(Step::StartGet { zero_wait: false, pause: None });
+            }
+            steps.push(Step::Close { pause: close_pause });
+            steps.extend(tail);
+            Case {
+                cfg: Cfg { max_size, lifo, post_create: vec![], pre_recycle: vec![], post_recycle: vec![], via },
+                script: Script::default(),
+                steps,
+                matrix: None,
+                sweep: None,
+                timed: None,
+            }
+        })
+        .boxed()
+}
